@@ -559,4 +559,4 @@ def run(ctx):
     _run_vertical(ctx)
     # second, independent tie: channel programs on the whole-program machine (whole-trace correspondence)
     from harness import machine_prop
-    machine_prop.run(ctx, [('channels', 120, 3000, {})], [])
+    machine_prop.run(ctx, [('channels', 120, 3000, {}), ('channels', 60, 1500, {'nchans': 2})], ['C11'])
